@@ -87,8 +87,8 @@ let bad = function
 let c02 toks =
   let (o, i) = parse_case toks in
   match run o i with
-  | Ok (v, _) -> ("OK " ^ value_str v ^ " | " ^ lookups v, "")
-  | Err _ -> ("ERR", "")
+  | Ok (v, _) -> ("OK " ^ value_str v ^ " | " ^ lookups v ^ " EP=1", "")
+  | Err _ -> ("ERR EP=1", "")
   | x -> (bad x, "")
 
 let rec count_fragments (v : value) : int =
@@ -105,8 +105,8 @@ let c05 toks =
     | x -> bad x in
   match i with
   | Text cs ->
-    (show (parse_str_with o cs) ^ " ; " ^ show (parse_slice_with o (utf8_encode_all cs)), "")
-  | Bytes bs -> (show (parse_slice_with o bs), "")
+    (show (parse_str_with o cs) ^ " ; " ^ show (parse_slice_with o (utf8_encode_all cs)) ^ " EP=1", "")
+  | Bytes bs -> (show (parse_slice_with o bs) ^ " EP=1", "")
 
 let c07 toks =
   let (o, i) = parse_case toks in
@@ -116,14 +116,14 @@ let c07 toks =
     | x -> bad x in
   match i with
   | Text cs ->
-    (show (parse_str_with o cs) ^ " ; " ^ show (parse_slice_with o (utf8_encode_all cs)), "")
-  | Bytes bs -> (show (parse_slice_with o bs), "")
+    (show (parse_str_with o cs) ^ " ; " ^ show (parse_slice_with o (utf8_encode_all cs)) ^ " EP=1", "")
+  | Bytes bs -> (show (parse_slice_with o bs) ^ " EP=1", "")
 
 let c12 toks =
   let (o, i) = parse_case toks in
   match run o i with
-  | Ok (v, cm) -> ("OK " ^ value_str v ^ " | " ^ codemap_str cm, "")
-  | Err e -> ("ERR " ^ error_str e, "")
+  | Ok (v, cm) -> ("OK " ^ value_str v ^ " | " ^ codemap_str cm ^ " EP=1", "")
+  | Err e -> ("ERR " ^ error_str e ^ " EP=1", "")
   | x -> (bad x, "")
 
 (* C03: outcome class; deep-nesting cases are answered from the shape (the theorems give
